@@ -48,7 +48,7 @@ static void c01_check(int sub, int fmt, int fld, int path, int bgi, int64_t a, u
     uint64_t exp = ref_get(obj_hdr(o), (unsigned)R->off, (unsigned)R->w);
     volatile uint64_t got = 0;
     char cs[160];
-    snprintf(cs, sizeof cs, "C01:%d:%d:%d:%d:%d:%lld:%llx", sub, fmt, fld, path, bgi, (long long)a, (unsigned long long)val);
+    SETCS("C01", (long long)(sub), (long long)(fmt), (long long)(fld), (long long)(path), (long long)(bgi), (long long)((long long)a), (long long)((unsigned long long)val));
     g_cnt.cases++;
     if (exp) g_cnt.nontrivial++;
     hs_add(fnv(obj_hdr(o), (size_t)o->len, (uint64_t)(fmt * 1000 + fld + 1)));
@@ -129,7 +129,7 @@ static void c01_generic_case(int q, int off, int bits, int bgi, int64_t a)
     uint64_t exp = ref_get(pdu, boff, (unsigned)bits);
     volatile uint64_t got = 0;
     char cs[160];
-    snprintf(cs, sizeof cs, "C01:2:%d:%d:%d:%d:%lld:0", q, off, bits, bgi, (long long)a);
+    SETCS("C01", 2, (long long)(q), (long long)(off), (long long)(bits), (long long)(bgi), (long long)((long long)a), 0);
     g_cnt.cases++;
     if (exp) g_cnt.nontrivial++;
     hs_add(fnv(pdu, 40, (uint64_t)(q * 100000 + off * 100 + bits + 7)));
@@ -156,10 +156,10 @@ static void suite_c01(void)
         for (int fld = 0; fld < F->nf; fld++) {
             const RowField* R = &F->f[fld];
             for (int path = 0; path <= R->hasg; path++) {
-                if (!my_unit()) continue;
-                hs_reset();
                 int nbits = 8 * F->len + 64;
                 for (int bgi = 0; bgi < 4; bgi++) {
+                    if (!my_unit()) continue;
+                    hs_reset();
                     c01_case(0, fmt, fld, path, bgi, -1, 0);
                     for (int k = 0; k < nbits; k++) c01_case(0, fmt, fld, path, bgi, k, 0);
                     if (g_thorough && F->len <= 16) {
@@ -259,7 +259,7 @@ static void c02_case(int fmt, int fld, int path, int bgi, int64_t a, uint64_t v)
     obj_fill(&o, F->len, BG[bgi]);
     if (a >= 0) flip_bit(o.raw, (unsigned)(PRE * 8 + a - 32));
     char cs[160];
-    snprintf(cs, sizeof cs, "C02:0:%d:%d:%d:%d:%lld:%llx", fmt, fld, path, bgi, (long long)a, (unsigned long long)v);
+    SETCS("C02", 0, (long long)(fmt), (long long)(fld), (long long)(path), (long long)(bgi), (long long)((long long)a), (long long)((unsigned long long)v));
     c02_run(cs, fmt, fld, path, &o, v);
 }
 
@@ -287,14 +287,14 @@ static void suite_c02(void)
         for (int fld = 0; fld < F->nf; fld++) {
             const RowField* R = &F->f[fld];
             for (int path = 0; path <= R->hass; path++) {
-                if (!my_unit()) continue;
-                hs_reset();
                 /* window: quadlets touched by the field +- one quadlet (bits relative to header start, +32 bias) */
                 int q0 = R->off / 32 - 1, q1 = (R->w ? (R->off + R->w - 1) / 32 : R->off / 32) + 1;
                 int lo = q0 * 32, hi = (q1 + 1) * 32;
                 if (lo < -32) lo = -32;
                 if (hi > 8 * F->len + 32) hi = 8 * F->len + 32;
                 for (int bgi = 0; bgi < 4; bgi++) {
+                    if (!my_unit()) continue;
+                    hs_reset();
                     C02Ctx c = { fmt, fld, path, bgi, -1 };
                     /* all of FV(w) plus the overflow probes on the plain background */
                     fv_enum((unsigned)R->w, g_thorough ? 20 : 16, c02_val, &c);
@@ -327,7 +327,7 @@ static void suite_c02(void)
             memcpy(exp, raw, sizeof raw);
             ref_set(exp + PRE, (unsigned)(q * 32 + off), (unsigned)bits, vals[vi] & m);
             char cs[160];
-            snprintf(cs, sizeof cs, "C02:2:%d:%d:%d:%d:%d:%llx", q, off, bits, bgi, k, (unsigned long long)vals[vi]);
+            SETCS("C02", 2, (long long)(q), (long long)(off), (long long)(bits), (long long)(bgi), (long long)(k), (long long)((unsigned long long)vals[vi]));
             g_cnt.cases++;
             if (memcmp(exp, raw, sizeof raw)) g_cnt.nontrivial++;
             hs_add(fnv(pdu, 40, vals[vi] + (uint64_t)(q * 100000 + off * 100 + bits)));
